@@ -379,4 +379,213 @@ theorem assignOrd_smart (h : Heap) (dst src : Loc) (hok : (assignOrd Order.array
               rw [writeLoc_aliveAt] at hal
               simp only [hok, Bool.false_eq_true, if_false, storeChecked, containerAlive, container, hal, if_true]
 
+open AslProofs.RcNest
+
+theorem aliveAt_of_read (h : Heap) (hI : Inv h []) (l : Loc) (t : Nat) (hr : readLoc h l = some t) : aliveAt h t = true := by
+  have hp := handles_pos_of_readLoc h [] l t hr
+  obtain ⟨ob, ho, ha, _⟩ := alive_of_handles_pos h [] hI t hp
+  unfold aliveAt; simp [ho, ha]
+
+/-- along a path that resolves to the place `(o, i)`, every container survives an update of the heap that keeps the program
+    variables, keeps every other place of every surviving object, and re-establishes the invariant -/
+theorem go_container_alive (h h' : Heap) (o i : Nat) (hroots : h'.roots = h.roots) (hI' : Inv h' [])
+    (hedge : ∀ c e t, aliveAt h' c = true → readLoc h (Loc.inObj c e) = some t → ¬(c = o ∧ e = i) →
+      readLoc h' (Loc.inObj c e) = some t) :
+    ∀ (es : List Nat) (cur : Loc), containerAlive h' cur = true → resolve.go h cur es = some (Loc.inObj o i) →
+      aliveAt h' o = true := by
+  intro es
+  induction es with
+  | nil =>
+    intro cur hc hr
+    unfold resolve.go at hr
+    by_cases hl : locLive h cur = true
+    · simp [hl] at hr; subst hr; simpa [containerAlive, container] using hc
+    · simp [hl] at hr
+  | cons e es ih =>
+    intro cur hc hr
+    unfold resolve.go at hr
+    cases hrd : readLoc h cur with
+    | none => simp [hrd] at hr
+    | some t =>
+      simp only [hrd] at hr
+      cases cur with
+      | root r =>
+        have : readLoc h' (Loc.root r) = some t := by
+          simp only [readLoc] at hrd ⊢; rw [hroots]; exact hrd
+        exact ih (Loc.inObj t e) (by simpa [containerAlive, container] using aliveAt_of_read h' hI' _ t this) hr
+      | inObj c e' =>
+        have hca : aliveAt h' c = true := by simpa [containerAlive, container] using hc
+        by_cases hoi : c = o ∧ e' = i
+        · rw [← hoi.1]; exact hca
+        · have := hedge c e' t hca hrd hoi
+          exact ih (Loc.inObj t e) (by simpa [containerAlive, container] using aliveAt_of_read h' hI' _ t this) hr
+
+
+def innerAt (h : Heap) (c : Nat) : Option (List Nat) := (h.objs[c]?).map (·.inner)
+
+theorem readLoc_inObj_eq (h : Heap) (c e : Nat) :
+    readLoc h (Loc.inObj c e) = if aliveAt h c then (innerAt h c).bind (·[e]?) else none := by
+  unfold readLoc aliveAt innerAt
+  cases hc : h.objs[c]? with
+  | none => simp [hc]
+  | some ob => cases ha : ob.alive <;> simp [hc, ha]
+
+theorem release_inner (f : Nat) : ∀ (w : List Nat) (h : Heap) (c : Nat), innerAt (release f w h).1 c = innerAt h c := by
+  induction f with
+  | zero => intro w h c; rfl
+  | succ f ih =>
+    intro w h c
+    cases w with
+    | nil => rfl
+    | cons x w =>
+      simp only [release]
+      cases hx : h.objs[x]? with
+      | none => rfl
+      | some xb =>
+        have hl := lt_of_some _ _ _ hx
+        have key : ∀ (xb' : Obj), xb'.inner = xb.inner → innerAt { h with objs := h.objs.set x xb' } c = innerAt h c := by
+          intro xb' hin
+          unfold innerAt
+          by_cases hxc : x = c
+          · subst hxc; rw [List.getElem?_set_self hl, hx]; simp [hin]
+          · rw [List.getElem?_set_ne hxc]
+        simp only
+        split
+        · rfl
+        · split
+          · rw [ih]; exact key _ rfl
+          · rw [ih]; exact key _ rfl
+
+theorem incr_inner (h : Heap) (s c : Nat) : innerAt (incr h s) c = innerAt h c := by
+  unfold incr
+  cases hs : h.objs[s]? with
+  | none => rfl
+  | some sb =>
+    simp only
+    split
+    · have hl := lt_of_some _ _ _ hs
+      unfold innerAt
+      by_cases hxc : s = c
+      · subst hxc; rw [List.getElem?_set_self hl, hs]; simp
+      · rw [List.getElem?_set_ne hxc]
+    · rfl
+
+theorem incr_roots (h : Heap) (s : Nat) : (incr h s).roots = h.roots := by
+  unfold incr; split <;> (try split) <;> rfl
+
+theorem writeLoc_inObj_roots (h : Heap) (o i t : Nat) : (writeLoc h (Loc.inObj o i) t).roots = h.roots := by
+  simp only [writeLoc]; split <;> rfl
+
+theorem writeLoc_inner_get (h : Heap) (o i t c e : Nat) (hne : ¬(c = o ∧ e = i)) :
+    (innerAt (writeLoc h (Loc.inObj o i) t) c).bind (·[e]?) = (innerAt h c).bind (·[e]?) := by
+  simp only [writeLoc]
+  cases ho : h.objs[o]? with
+  | none => rfl
+  | some ob =>
+    have hl := lt_of_some _ _ _ ho
+    unfold innerAt
+    by_cases hoc : o = c
+    · subst hoc
+      have hei : ¬ e = i := fun h => hne ⟨rfl, h⟩
+      have hie : i ≠ e := fun h => hei h.symm
+      rw [List.getElem?_set_self hl, ho]
+      simp only [Option.map_some, Option.bind_some]
+      rw [List.getElem?_set_ne hie]
+    · rw [List.getElem?_set_ne hoc]
+
+
+theorem locLive_container (h : Heap) (l : Loc) (hl : locLive h l = true) : containerAlive h l = true := by
+  cases l with
+  | root r => rfl
+  | inObj c e =>
+    unfold locLive at hl
+    rw [readLoc_inObj_eq] at hl
+    simp only [containerAlive, container]
+    cases ha : aliveAt h c with
+    | true => rfl
+    | false => simp [ha] at hl
+
+/-- **a destination reached by a path keeps its container**: after `*dst = *src` (Array order) the object that holds `dst` is
+    still allocated, for every place `dst` that a path from a program variable resolves to -/
+theorem path_container_survives (h : Heap) (p : Path) (dst src : Loc) (hI : Inv h []) (hb : h.bad = false)
+    (hr : resolve h p = some dst) (hs : locLive h src = true) :
+    containerAlive (assign true h dst src) dst = true := by
+  have hd : locLive h dst = true := resolve_live h p dst hr
+  cases dst with
+  | root r => rfl
+  | inObj o i =>
+    obtain ⟨hok, hI'⟩ := assign_acquire_first_safe h (Loc.inObj o i) src hI hb hd hs
+    -- unfold the assignment far enough to see its shape
+    by_cases he : Loc.inObj o i = src
+    · have : assign true h (Loc.inObj o i) src = h := by unfold assign; simp [hb, he]
+      rw [this]; exact locLive_container h _ hd
+    · cases hrd : readLoc h (Loc.inObj o i) with
+      | none => unfold locLive at hd; rw [hrd] at hd; cases hd
+      | some d =>
+        cases hrs : readLoc h src with
+        | none => unfold locLive at hs; rw [hrs] at hs; cases hs
+        | some s =>
+          have hshape : assign true h (Loc.inObj o i) src =
+              if (incr h s).bad then incr h s
+              else (release (fuelFor (writeLoc (incr h s) (Loc.inObj o i) s) [d]) [d] (writeLoc (incr h s) (Loc.inObj o i) s)).1 := by
+            unfold assign; simp [hb, he, hrd, hrs]
+          by_cases hib : (incr h s).bad = true
+          · -- cannot happen: the result would be bad
+            rw [hshape] at hok; simp [hib] at hok
+          · have hib' : (incr h s).bad = false := by simpa using hib
+            simp only [hib', Bool.false_eq_true, if_false] at hshape
+            have hroots : (assign true h (Loc.inObj o i) src).roots = h.roots := by
+              rw [hshape, release_keeps_roots, writeLoc_inObj_roots, incr_roots]
+            have hedge : ∀ c e t, aliveAt (assign true h (Loc.inObj o i) src) c = true →
+                readLoc h (Loc.inObj c e) = some t → ¬(c = o ∧ e = i) →
+                readLoc (assign true h (Loc.inObj o i) src) (Loc.inObj c e) = some t := by
+              intro c e t hca hrt hne
+              rw [readLoc_inObj_eq] at hrt ⊢
+              rw [hca]; simp only [if_true]
+              have : innerAt (assign true h (Loc.inObj o i) src) c = innerAt (writeLoc (incr h s) (Loc.inObj o i) s) c := by
+                rw [hshape, release_inner]
+              rw [this, writeLoc_inner_get _ _ _ _ _ _ hne, incr_inner]
+              cases hha : aliveAt h c with
+              | true => simpa [hha] using hrt
+              | false => simp [hha] at hrt
+            unfold resolve at hr
+            have := go_container_alive h _ o i hroots hI' hedge p.elems (Loc.root p.root) rfl hr
+            simpa [containerAlive, container] using this
+
+
+theorem runOpOrd_eq (ord : Order) (h : Heap) (op : Op) (hI : Inv h []) (hb : h.bad = false) :
+    runOpOrd ord h op = runOp true h op := by
+  cases op with
+  | drop => rfl
+  | assign d s =>
+    cases hd : resolve h d with
+    | none => simp [runOpOrd, runOp, hd]
+    | some dl =>
+      cases hs : resolve h s with
+      | none => simp [runOpOrd, runOp, hd, hs]
+      | some sl =>
+        simp only [runOpOrd, runOp, hd, hs]
+        have hdl := resolve_live h d dl hd
+        have hsl := resolve_live h s sl hs
+        cases ord with
+        | array => exact assignOrd_array h dl sl
+        | shared => rw [assignOrd_shared, assignOrd_array]
+        | smart =>
+          have hok := (assign_acquire_first_safe h dl sl hI hb hdl hsl).1
+          have hc := path_container_survives h d dl sl hI hb hd hsl
+          rw [← assignOrd_array] at hok hc ⊢
+          exact assignOrd_smart h dl sl hok hc
+
+theorem runOpsOrd_eq (ord : Order) (ops : List Op) : ∀ (h : Heap), Inv h [] → h.bad = false →
+    runOpsOrd ord h ops = runOps true h ops := by
+  induction ops with
+  | nil => intro h _ _; rfl
+  | cons op ops ih =>
+    intro h hI hb
+    unfold runOpsOrd runOps
+    simp only [List.foldl_cons]
+    rw [runOpOrd_eq ord h op hI hb]
+    obtain ⟨hb', hI'⟩ := runOp_safe h op hI hb
+    exact ih _ hI' hb'
+
 end AslProofs.RcOrders
